@@ -54,7 +54,8 @@ func (d *slidingWindowDetector) Check(seq uint64) (func() bool, bool) {
 	}
 
 	return func() bool {
-		latest := seq == 0
+		// 0 is the newest number only if nothing newer has been accepted.
+		latest := seq == 0 && d.latestSeq == 0
 		if seq > d.latestSeq {
 			// Update the head of the window.
 			d.mask.Lsh(uint(seq - d.latestSeq))
